@@ -98,6 +98,8 @@ def c18_program(rows, etys):
     idx = 0
     for d in rows:
         for e in etys:
+            if e == "u8" and max(d["l"], d["n"] * max(d["m"], 1)) > 250:
+                continue  # u8 cells hold their index: no wrap-around in the summaries
             r = c18_row(idx, d, e)
             idx += 1
             if r:
